@@ -390,3 +390,127 @@ Example ex_stl_splat :
 Proof.
   split; [vm_compute; reflexivity|]. repeat constructor; vm_compute; reflexivity.
 Qed.
+
+(* ================================================================ round 4 *)
+From PF Require Formats.PrefixBlocks Formats.PrefixText.
+Close Scope string_scope.
+Open Scope list_scope.
+
+(* ---------------------------------------------------------------- every reader configuration *)
+(* ply.MeshReader{AttributeElement "vertex", Properties gs, LoadUnspecifiedProperties u}.Read -- any caller-made
+   configuration, not only ply.ReadMesh's default one: the threshold theorem (binary body, every byte cut) *)
+Theorem prefix_ply_bin_any_config : forall gs u h bytes m,
+  read_body gs u h (BodyBin bytes) = Ok m ->
+  exists c, (c <= length bytes)%nat /\
+    (forall k, (k < c)%nat -> read_body gs u h (BodyBin (firstn k bytes)) = Err EEof) /\
+    (forall k, (c <= k)%nat -> read_body gs u h (BodyBin (firstn k bytes)) = Ok m).
+Proof. exact PrefixBlocks.ply_bin_prefix_any_config. Qed.
+Print Assumptions prefix_ply_bin_any_config.
+(* ... and for ASCII bodies cut after k lines *)
+Theorem prefix_ply_ascii_lines_any_config : forall gs u h lines m,
+  read_body gs u h (BodyAscii lines) = Ok m ->
+  exists c, (c <= length lines)%nat /\
+    (forall k, (k < c)%nat -> read_body gs u h (BodyAscii (firstn k lines)) = Err EEof) /\
+    (forall k, (c <= k)%nat -> read_body gs u h (BodyAscii (firstn k lines)) = Ok m).
+Proof. exact PrefixBlocks.ply_ascii_lines_prefix_any_config. Qed.
+Print Assumptions prefix_ply_ascii_lines_any_config.
+
+(* ---------------------------------------------------------------- block-wise decoding of the vertex element *)
+(* A reader that fetches the vertex records in blocks of ANY sizes (one read of b * size bytes per block, the records
+   decoded from that buffer: chunked readers, worker pools) returns Ok r exactly when the record-by-record loop of
+   ply.ReadMesh does: same rows, same unread rest -- for every list of block sizes, every reader list, both byte
+   orders, every input.  Sizes past an internal block threshold change nothing. *)
+Theorem ply_vertex_blocks_independent : forall e bs size blocks bytes r,
+  PrefixBlocks.read_vertices_blocked e bs size blocks bytes = Ok r <->
+  read_vertices_bin e bs size (list_sum blocks) bytes = Ok r.
+Proof. exact PrefixBlocks.read_vertices_blocked_iff. Qed.
+Print Assumptions ply_vertex_blocks_independent.
+(* hence every cut inside the vertex data of an accepted file is rejected, whatever the block sizes *)
+Theorem prefix_ply_vertex_blocks : forall e bs size blocks bytes rows rest k,
+  PrefixBlocks.read_vertices_blocked e bs size blocks bytes = Ok (rows, rest) -> (k < list_sum blocks * size)%nat ->
+  exists err, PrefixBlocks.read_vertices_blocked e bs size blocks (firstn k bytes) = Err err.
+Proof. exact PrefixBlocks.read_vertices_blocked_prefix_rejected. Qed.
+Print Assumptions prefix_ply_vertex_blocks.
+(* the excluded behaviour: a block reader that decodes a short block from a zero-padded buffer accepts a strict
+   prefix (which the loop rejects) and returns two rows, one of them not in the file *)
+Theorem lenient_block_reader_refuted :
+  exists bytes k rows rows', (k < length bytes)%nat /\
+    read_vertices_bin LEnd PrefixBlocks.xyz_readers 12 2 bytes = Ok (rows, []) /\
+    read_vertices_bin LEnd PrefixBlocks.xyz_readers 12 2 (firstn k bytes) = Err EEof /\
+    PrefixBlocks.read_vertices_blocked_lenient LEnd PrefixBlocks.xyz_readers 12 [2%nat] (firstn k bytes) = Ok (rows', []) /\
+    rows' <> rows /\ length rows' = 2%nat.
+Proof. exact PrefixBlocks.lenient_block_reader_refuted. Qed.
+Print Assumptions lenient_block_reader_refuted.
+Example ex_vertex_blocks :
+  PrefixBlocks.read_vertices_blocked LEnd PrefixBlocks.xyz_readers 12 [1;1]%nat PrefixBlocks.two_records
+    = read_vertices_bin LEnd PrefixBlocks.xyz_readers 12 2 PrefixBlocks.two_records /\
+  PrefixBlocks.read_vertices_blocked LEnd PrefixBlocks.xyz_readers 12 [2]%nat PrefixBlocks.two_records
+    = read_vertices_bin LEnd PrefixBlocks.xyz_readers 12 2 PrefixBlocks.two_records /\
+  exists rows, read_vertices_bin LEnd PrefixBlocks.xyz_readers 12 2 PrefixBlocks.two_records = Ok (rows, []) /\ length rows = 2%nat.
+Proof. exact PrefixBlocks.blocked_example. Qed.
+
+(* ---------------------------------------------------------------- spz.ReadHeader *)
+(* the header-only reader (after gunzip): a cut below the 16 header bytes is rejected, every other prefix yields the
+   header of the complete file -- data wholly present in the prefix *)
+Theorem prefix_spz_header : forall h ps k,
+  Spz.header_ok h -> Spz.validate h = true ->
+  PrefixBlocks.SpzHeader.read_header (firstn k (Spz.encode_ref h ps)) = if (k <? 16)%nat then None else Some h.
+Proof. exact PrefixBlocks.SpzHeader.read_header_prefix. Qed.
+Print Assumptions prefix_spz_header.
+
+(* ---------------------------------------------------------------- PTS: a lone number is not a block count *)
+(* the excluded behaviour: a reader that takes a line holding one number for the count of a further block accepts the
+   valid file "2 / 5 6 7 / 0 8 9" cut right after the "0" with ONE point; pts_read (the reader of /repo) rejects that
+   prefix, and the direct oracle no_placeholderb rejects the variant's answer *)
+Theorem pts_block_count_variant_refuted :
+  exists count lines j m r,
+    Pts.pts_read (Some count) lines <> None /\
+    Pts.pts_read (Some count) (Pts.pts_prefix lines j m) = None /\
+    PrefixBlocks.PtsBlocks.pts_read_blocks (Some count) (Pts.pts_prefix lines j m) = Some r /\
+    Pts.no_placeholderb (Some count) (Pts.pts_prefix lines j m) r = false /\ (Pts.p_n r < Z.to_nat count)%nat.
+Proof. exact PrefixBlocks.PtsBlocks.block_count_variant_refuted. Qed.
+Print Assumptions pts_block_count_variant_refuted.
+
+(* ---------------------------------------------------------------- ASCII bodies at byte level *)
+(* [scan] = bufio.Scanner/ScanLines, [fields_of] = strings.Fields, [render] = token lines written with single spaces
+   and '\n'.  The bytes up to the token boundary (j lines, m tokens) scan and split into exactly the token prefix: the
+   step from a byte cut to the token view (done by the harness' tokenizer for the correspondence) is a theorem. *)
+Theorem ascii_text_cut_is_token_prefix : forall ls, Forall (Forall PrefixText.tok_ok) ls -> forall j m,
+  (m <= length (nth j ls []))%nat ->
+  map PrefixText.fields_of (PrefixText.scan (firstn (PrefixText.boundary ls j m) (PrefixText.render ls)) [])
+  = PrefixText.token_prefix ls j m.
+Proof. exact PrefixText.text_cut_tokens. Qed.
+Print Assumptions ascii_text_cut_is_token_prefix.
+(* end to end (bytes -> lines -> tokens -> mesh), for any token parser [tokval] (strconv): if the complete text
+   decodes, there is a line count c the header promises; a text cut after fewer lines is reported as end of input, a
+   text cut after at least c lines yields the identical mesh *)
+Theorem prefix_ply_ascii_text_lines : forall tokval hdr ls mesh, Forall (Forall PrefixText.tok_ok) ls ->
+  PrefixText.read_mesh_text tokval hdr (PrefixText.render ls) = Ok mesh ->
+  exists c, (c <= length ls)%nat /\
+    (forall j, (j < c)%nat ->
+       PrefixText.read_mesh_text tokval hdr (firstn (PrefixText.boundary ls j 0) (PrefixText.render ls)) = Err EEof) /\
+    (forall j, (c <= j)%nat ->
+       PrefixText.read_mesh_text tokval hdr (firstn (PrefixText.boundary ls j 0) (PrefixText.render ls)) = Ok mesh).
+Proof. exact PrefixText.ply_ascii_text_lines_prefix. Qed.
+Print Assumptions prefix_ply_ascii_text_lines.
+(* ... and a text cut at a token boundary inside line j of the vertex block (0 < m tokens, fewer than properties) is
+   reported: the byte-level form of prefix_ply_ascii_vertex_token *)
+Theorem prefix_ply_ascii_text_vertex_token : forall tokval hdr ls mesh h ve bs rows rest j m,
+  Forall (Forall PrefixText.tok_ok) ls ->
+  PrefixText.read_mesh_text tokval hdr (PrefixText.render ls) = Ok mesh ->
+  parse_header hdr = Ok h ->
+  find_last_elem "vertex"%string (h_elems h) None = Some ve ->
+  build_readers false default_groups true (e_props ve) = Ok bs ->
+  read_vertices_ascii bs (length (e_props ve)) (PrefixText.toklines tokval ls) (Z.to_nat (e_count ve)) = Ok (rows, rest) ->
+  (j < length ls - length rest)%nat -> (0 < m)%nat -> (m <= length (nth j ls []))%nat ->
+  (m < length (e_props ve))%nat ->
+  PrefixText.read_mesh_text tokval hdr (firstn (PrefixText.boundary ls j m) (PrefixText.render ls)) = Err EEof.
+Proof. exact PrefixText.ply_ascii_text_vertex_cut. Qed.
+Print Assumptions prefix_ply_ascii_text_vertex_token.
+Example ex_text_cut :
+  let ls := [[[49]; [50]]; [[51]]]%N in
+  PrefixText.render ls = [49; 32; 50; 10; 51; 10]%N /\
+  PrefixText.boundary ls 0 1 = 1%nat /\ PrefixText.boundary ls 1 0 = 4%nat /\ PrefixText.boundary ls 1 1 = 5%nat /\
+  map PrefixText.fields_of (PrefixText.scan (firstn 1 (PrefixText.render ls)) []) = [[[49]]]%N /\
+  map PrefixText.fields_of (PrefixText.scan (firstn 5 (PrefixText.render ls)) []) = [[[49]; [50]]; [[51]]]%N.
+Proof. exact PrefixText.text_cut_example. Qed.
